@@ -898,6 +898,9 @@ func callBuiltin(i *interpreter, caller *frame, fn *ssa.Builtin, args []value) v
 		if len(args) == 1 {
 			return args[0]
 		}
+		if ss, ok := args[1].(symString); ok {
+			return append(args[0].([]value), ss.b...)
+		}
 		if s, ok := args[1].(string); ok {
 			// append([]byte, ...string) []byte
 			arg0 := args[0].([]value)
@@ -911,6 +914,9 @@ func callBuiltin(i *interpreter, caller *frame, fn *ssa.Builtin, args []value) v
 
 	case "copy": // copy([]T, []T) int or copy([]byte, string) int
 		src := args[1]
+		if ss, ok := src.(symString); ok {
+			src = append([]value(nil), ss.b...)
+		}
 		if _, ok := src.(string); ok {
 			params := fn.Type().(*types.Signature).Params()
 			src = i.conv(params.At(0).Type(), params.At(1).Type(), src)
@@ -944,6 +950,8 @@ func callBuiltin(i *interpreter, caller *frame, fn *ssa.Builtin, args []value) v
 		switch x := args[0].(type) {
 		case string:
 			return len(x)
+		case symString:
+			return len(x.b)
 		case array:
 			return len(x)
 		case *value:
@@ -1148,7 +1156,7 @@ func (i *interpreter) conv(t_dst, t_src types.Type, x value) value {
 			for i := range x {
 				bb, ok := x[i].(byte)
 				if !ok {
-					panic(engineError{"string([]byte) with symbolic bytes"})
+					return symString{b: append([]value(nil), x...)}
 				}
 				b = append(b, bb)
 			}
@@ -1164,6 +1172,12 @@ func (i *interpreter) conv(t_dst, t_src types.Type, x value) value {
 		}
 
 	case *types.Basic:
+		if ss, ok := x.(symString); ok {
+			if _, isSlice := ut_dst.(*types.Slice); isSlice {
+				return append([]value(nil), ss.b...)
+			}
+			return ss
+		}
 		x = widen(x)
 
 		// integer -> string?
